@@ -1,4 +1,5 @@
 import GomlVerif.Lemmas.DceSim2
+import GomlVerif.Lemmas.GoEq
 /-! Simulation proof for DCE, part 3: `if` and `for` (the loop head invariant is re-established by the frame lemma). -/
 set_option linter.unusedSimpArgs false
 set_option linter.unusedVariables false
@@ -193,19 +194,13 @@ theorem simX_loop {F D P} (n : Nat) (ih : SimAt F D P n) {body live needs ρi ρ
   simp only [scopeErrsStmt] at h1
   simp only [shapeOKStmt] at h2
   simp only [semOKStmt, Bool.and_eq_true, List.all_eq_true, Bool.not_eq_true', List.contains_eq_mem,
-    decide_eq_false_iff_not] at h3
-  obtain ⟨hw, h3b⟩ := h3
+    decide_eq_false_iff_not, decide_eq_true_eq] at h3
+  obtain ⟨⟨⟨hw, heq⟩, hliveH⟩, h3b⟩ := h3
+  have heq := eqStmts_sound _ _ heq
   simp only [dceStmt] at hr ⊢
-  -- the variables the loop head needs are not assigned in the body (input or output)
-  have hwi : ∀ y ∈ uni live (dceStmts body live).live, ¬ y ∈ writesStmts body := by
-    intro y hy hwy
-    have := hw y hwy
-    simp only [mem_uni] at hy
-    rcases hy with hy | hy
-    · exact this.1 hy
-    · exact this.2 hy
-  have hwo : ∀ y ∈ uni live (dceStmts body live).live,
-      ¬ y ∈ writesStmts (dceStmts body live).out ∨ y = "_" := by
+  -- the variables live after the loop are not assigned in the body (input or output)
+  have hwi : ∀ y ∈ live, ¬ y ∈ writesStmts body := fun y hy hwy => hw y hwy hy
+  have hwo : ∀ y ∈ live, ¬ y ∈ writesStmts (dceStmts body live).out ∨ y = "_" := by
     intro y hy
     by_cases h_ : y = "_"
     · exact Or.inr h_
@@ -213,35 +208,45 @@ theorem simX_loop {F D P} (n : Nat) (ih : SimAt F D P n) {body live needs ρi ρ
       rcases writes_dce_sub body live y h2 hwy with h' | h'
       · exact hwi y hy h'
       · exact h_ h'
+  -- run one iteration with the loop-back live set `H`; the output block is the same
+  have hsim : ∀ {r0}, nestedG n F ρi w body = r0 → Definite r0 →
+      ∃ m r', nestedG m F ρo w (dceStmts body live).out = r' ∧
+        ResRel (uni live (dceStmts body live).live) needs r' r0 := by
+    intro r0 hn0 hd0
+    obtain ⟨m, r', hm, hrr⟩ := sim_nested_rel (needs := needs) (live := uni live (dceStmts body live).live)
+      ih h1 h2 h3b hr (fun y hy => by simpa using hliveH y hy)
+      (fun y hy => by rw [heq] at hy; simp [hy]) (fun y hy => by simp [hy]) hn0 hd0
+    rw [heq] at hm
+    exact ⟨m, r', hm, hrr⟩
   cases hnb : nestedG n F ρi w body with
   | fail f w1 =>
     rw [hnb] at h; simp only at h; subst h
-    obtain ⟨m, r', hm, hrr⟩ := sim_nested_rel (needs := needs) ih h1 h2 h3b hr (fun y hy => by simp [hy])
-      (fun y hy => by simp [hy]) (fun y hy => by simp [hy]) hnb hd
+    obtain ⟨m, r', hm, hrr⟩ := hsim hnb hd
     cases r' with
     | ok p w' => obtain ⟨_, _⟩ := p; simp [ResRel] at hrr
     | fail f' w' =>
       have : execG (m+1) F ρo w (.loop (dceStmts body live).out) = .fail f' w' := by
         rw [execG.eq_def]; simp only; rw [hm]
-      exact block_of_exec F this hrr hd
+      refine block_of_exec F this ?_ hd
+      simpa [ResRel] using hrr
   | ok p w1 =>
     obtain ⟨ρi1, sig⟩ := p
     rw [hnb] at h
-    obtain ⟨m, r', hm, hrr⟩ := sim_nested_rel (needs := needs) ih h1 h2 h3b hr (fun y hy => by simp [hy])
-      (fun y hy => by simp [hy]) (fun y hy => by simp [hy]) hnb trivial
+    obtain ⟨m, r', hm, hrr⟩ := hsim hnb trivial
     cases r' with
     | fail f' w' => simp [ResRel] at hrr
     | ok p' w' =>
       obtain ⟨ρo1, sig'⟩ := p'
       simp only [ResRel] at hrr
-      obtain ⟨rfl, rfl, _⟩ := hrr
-      -- the invariant at the loop head holds again, by the frame lemma
-      have hhead : Rel (uni live (dceStmts body live).live)
-          (uni needs (assignedStmts (dceStmts body live).out)) ρo1 ρi1 :=
-        rel_frame hr ((frame_all m).ne hm) ((frame_all n).ne hnb) hwi hwo
+      obtain ⟨rfl, rfl, hnorm⟩ := hrr
       cases sig' with
       | normal =>
         simp only at h
+        -- the invariant at the loop head holds again: the iteration was simulated with `H`
+        have hhead : Rel (uni live (dceStmts body live).live)
+            (uni needs (assignedStmts (dceStmts body live).out)) ρo1 ρi1 :=
+          rel_after_nested hr ((frame_all m).ne hm) ((frame_all n).ne hnb) (hnorm rfl).agree
+            (fun y hy => hy)
         have hk1 : keys ρi1 = keys ρi := frame_keys ((frame_all n).ne hnb)
         obtain ⟨m2, r2, hm2, hr2⟩ := ih.ex (needs := needs) (ρo := ρo1) (by rw [hk1]; exact h1s) h2s h3s
           (by simpa [dceStmt] using hhead) h hd
@@ -254,7 +259,10 @@ theorem simX_loop {F D P} (n : Nat) (ih : SimAt F D P n) {body live needs ρi ρ
           rw [execG.eq_def]; simp only; rw [hm]
         refine block_of_exec F this ?_ trivial
         simp only [ResRel]
-        exact ⟨trivial, trivial, fun _ => hhead.mono (fun y hy => by simp [hy]) (fun y hy => by simp [hy])⟩
+        refine ⟨trivial, trivial, fun _ => ?_⟩
+        -- after `break`: what is live after the loop was not assigned, so the frame lemma gives it
+        have hr0 : Rel live needs ρo ρi := hr.mono (fun y hy => by simp [hy]) (fun y hy => by simp [hy])
+        exact rel_frame hr0 ((frame_all m).ne hm) ((frame_all n).ne hnb) hwi hwo
       | ret v =>
         simp only at h; subst h
         have : execG (m+1) F ρo w (.loop (dceStmts body live).out) = .ok (ρo1, .ret v) w' := by
